@@ -1908,13 +1908,15 @@ pub(crate) async fn setup_redirect(
                                 subshell_cmd,
                             )?;
 
-                            let target_file = substitution_file.clone();
-                            params.open_files.set_fd(substitution_fd, substitution_file);
+                            // N.B. The substitution is only reachable through the redirected
+                            // descriptor; also keeping it open at the descriptor chosen for it
+                            // would (with `exec`) leave a copy behind that nothing ever closes.
+                            let _ = substitution_fd;
 
                             let fd_num = specified_fd_num
                                 .unwrap_or_else(|| get_default_fd_for_redirect_kind(kind));
 
-                            params.open_files.set_fd(fd_num, target_file);
+                            params.open_files.set_fd(fd_num, substitution_file);
                         }
                         _ => return error::unimp("invalid process substitution"),
                     }
